@@ -246,6 +246,9 @@ func (m *Mirror) HandleProposedHeader(ctx context.Context, ph tmconsensus.Propos
 		return tmconsensus.HandleProposedHeaderMissingProposerPubKey
 	}
 
+	// Backfilling the previous height's commit is attempted at most once per call.
+	triedBackfill := false
+
 RESTART:
 	verifhook.Point(ctx, "mirror.ph.restart")
 	req := tmi.PHCheckRequest{
@@ -281,6 +284,13 @@ RESTART:
 		return tmconsensus.HandleProposedHeaderSignerUnrecognized
 	case tmi.PHCheckNextHeight:
 		// Special case: we make an additional request to the kernel if the PH is for the next height.
+		if triedBackfill {
+			// The commit proof in the header did not advance our voting height,
+			// so the header is still for a future height.
+			// Trying again would repeat the same requests forever.
+			return tmconsensus.HandleProposedHeaderRoundTooFarInFuture
+		}
+		triedBackfill = true
 		m.backfillCommitForNextHeightPE(ctx, req.PH)
 		goto RESTART // TODO: find a cleaner way to apply the proposed block after backfilling commit.
 	case tmi.PHCheckRoundTooOld:
